@@ -26,6 +26,18 @@ fn gen(rng: &mut Rng, case: u64) -> Case {
             _ => Ev::Some(t, constant_input.unwrap_or_else(|| rng.moderate(1e4))),
         });
     }
+    if case % 11 == 3 {
+        // 40..64 present samples at a tiny constant step, all inside the window (a cap on the stored history only
+        // shows at the maximum length), optionally followed by a gap longer than the window
+        let n = if rng.chance(0.5) { 64 } else { 40 + rng.usize(24) };
+        let step = rng.range_i64(1, 2_000_000);
+        let mut h = Vec::with_capacity(n + 1);
+        let mut t = rng.range_i64(-1_000_000_000_000, 1_000_000_000_000);
+        for _ in 0..n { t += step; h.push(Ev::Some(t, rng.moderate(1e4))); }
+        let window = step * 70 + rng.range_i64(0, 1_000_000_000);
+        if h.len() < 64 && rng.chance(0.5) { t += window + rng.range_i64(1, 10_000_000_000); h.push(Ev::Some(t, rng.moderate(1e4))); }
+        return Case { window, smoothing: rng.unit() as f32, h };
+    }
     let window = match rng.below(5) { 0 => rng.range_i64(1, 10), 1 => rng.step_ns(1, 1_000_000), _ => rng.step_ns(1_000, 36_000_000_000_000) };
     let smoothing = match rng.below(6) { 0 => 0.0, 1 => 1.0, 2 => (2.0f32).powi(-(1 + rng.below(12) as i32)),
         3 => *rng.pick(&[1.0f32 - f32::EPSILON / 2.0, 1.0 - f32::EPSILON, 1.0 - 2.0 * f32::EPSILON, f32::EPSILON, f32::MIN_POSITIVE, 0.5]), // the f32 neighbours of 1 and 0
